@@ -19,9 +19,16 @@ class Pats:
         self.patterns = {k: v.pattern for k, v in env.items() if isinstance(v, fold.RegexConst)}
         self.flags = {k: v.flags for k, v in env.items() if isinstance(v, fold.RegexConst)}
         self.unfolded = dict(folder.unfolded)
-        for k, fl in self.flags.items():
-            if fl:
+        import re as _re
+        self.ignorecase = set()
+        for k, fl in list(self.flags.items()):
+            if not fl:
+                continue
+            val = self._flag_value(fl)
+            if val is None or val & ~(_re.IGNORECASE | _re.UNICODE):
                 raise AnalysisError('pattern %s compiled with flags %r: outside the modelled semantics' % (k, fl))
+            if val & _re.IGNORECASE:
+                self.ignorecase.add(k)
         self.parsed = {}
         for k, p in self.patterns.items():
             try:
@@ -47,6 +54,16 @@ class Pats:
         self.ANY = ro.sigma_star_set(A, self.ALLB)
         self.EMPTY = ro.empty_lang(A)
         self.EPS = ro.const_lang(A, '')
+
+    @staticmethod
+    def _flag_value(fl):
+        import re as _re
+        if isinstance(fl, int):
+            return fl
+        if isinstance(fl, tuple) and fl[:2] == ('modattr', 're') and hasattr(_re, fl[2]):
+            v = getattr(_re, fl[2])
+            return int(v) if isinstance(v, (int, _re.RegexFlag)) else None
+        return None
 
     def _lower_map(self):
         A = self.A
@@ -91,7 +108,14 @@ class Pats:
         if name not in self._dfa:
             p = self.extra[name] if name in self.extra else self.need(name)
             try:
-                self._dfa[name] = rx.determinize(rx.nfa_of(p, self.A))
+                if name in self.ignorecase:
+                    # re.IGNORECASE: every character set is closed under the case partners of its explicit members
+                    # (the handful of special Unicode foldings, U+0131 U+0130 U+017F U+212A, is not modelled)
+                    n = CaseNFA(self.A, self.UM, self.LM)
+                    n.final = n.build(list(p), n.start)
+                    self._dfa[name] = rx.determinize(n)
+                else:
+                    self._dfa[name] = rx.determinize(rx.nfa_of(p, self.A))
             except rx.Unsupported as e:
                 raise AnalysisError('unsupported regex construct in %s: %s' % (name, e))
         return self._dfa[name]
@@ -157,6 +181,25 @@ class Pats:
                 raise AnalysisError('group %r not in %s' % (k, pat))
             return p.state.groupdict[k]
         return k
+
+
+class CaseNFA(rx.NFA):
+    def __init__(self, alpha, um, lm):
+        super().__init__(alpha)
+        self.um, self.lm = um, lm
+
+    def build1(self, node, s):
+        op, av = node
+        if op in (sc.LITERAL, sc.NOT_LITERAL, sc.IN, sc.ANY):
+            t = self.new()
+            blocks = set(self.alpha.blocks_of_set(rx.charset_of(node)))
+            for b in list(blocks):
+                for mp in (self.um, self.lm):
+                    if mp.get(b) is not None:
+                        blocks.add(mp[b])
+            self.trans[s].append((frozenset(blocks), t))
+            return t
+        return super().build1(node, s)
 
 
 def find_group(nodes, gid):
